@@ -1599,6 +1599,20 @@ def expand_adaptors(body, depth=3):
             arms = None
             kind = None
             clo_idx = None
+            if re.search(r"Option::<T>::unwrap_or$|Result::<T, E>::unwrap_or$", name) and (aty.startswith(OPT) or aty.startswith(RES)) and len(t["args"]) == 2:
+                # the payload when there is one, the given value otherwise
+                is_opt = aty.startswith(OPT)
+                dl = new_local("isize")
+                b_dflt, b_val, b_unr = len(blocks), len(blocks) + 1, len(blocks) + 2
+                dest, target = t["dest"], t["target"]
+                blocks[bi]["stmts"].append(assign({"l": dl, "p": []}, {"k": "discr", "place": {"l": recv["l"], "p": []}, "of": aty}))
+                tg = [["0", b_dflt], ["1", b_val]] if is_opt else [["0", b_val], ["1", b_dflt]]
+                blocks[bi]["term"] = {"k": "switch", "discr": {"move": {"l": dl, "p": []}}, "dty": "isize", "targets": tg, "otherwise": b_unr, "line": line, "exp": False}
+                blocks.append({"stmts": [assign(dest, {"k": "use", "x": t["args"][1]})], "term": {"k": "goto", "target": target, "line": line}, "cleanup": False})
+                blocks.append({"stmts": [assign(dest, {"k": "use", "x": payload(1, "Some") if is_opt else payload(0, "Ok")})], "term": {"k": "goto", "target": target, "line": line}, "cleanup": False})
+                blocks.append({"stmts": [], "term": {"k": "unreachable", "line": line}, "cleanup": False})
+                did = True
+                break
             if re.search(r"Option::<T>::ok_or$", name) and aty.startswith(OPT) and len(t["args"]) == 2:
                 # Option<T> -> Result<T, E> with an already built error value
                 dl = new_local("isize")
